@@ -622,6 +622,11 @@ func (tr *Trans) applyContract(ct *Contract, fn *ssa.Function, sig *types.Signat
 		if fn != nil && mentionsLocalsOf(fn, ct, names, en.AST) && env.hasUnresolvable(en.AST) {
 			continue // a postcondition phrased over the callee's own locals: proved there, not usable by callers
 		}
+		if p := tr.g.opts.Prop; p != "" && !en.Shared && len(en.Props) > 0 && !hasProp(en.Props, p) && !ct.Trusted && !ct.External {
+			if top := tr.g.topTr; top != nil && top.fn.Pkg != nil && ct.Pkg != "" && top.fn.Pkg.Pkg.Path() != ct.Pkg {
+				continue // another package's postcondition that serves other properties only
+			}
+		}
 		tr.assumeClause(env, tr.rc, en.AST)
 	}
 	tr.callerAsserts("after", short, ord, args, res, pre, tr.st)
